@@ -439,6 +439,15 @@ class E1Run:
         """One op, or a burst of requests inside one tick (count-pushing workloads of C02)."""
         push = (self.args.get("profile") or {}).get("push", 0.0)
         op = self.gen_op()
+        if op[0] == "req" and self.args.get("faults_inside_steps"):
+            # the fault is applied inside a tick, in the window in which the actions of further agents are applied
+            # (checks whose oracle is stated "at the end of the step" for changes made by agents within steps)
+            env = self.env
+            step = ["step", self.ops_rng.randrange(env.action_space.n)]
+            extra = {name: self.ops_rng.randrange(len(ag.action_manager.action_map)) for name, ag in env.game.rl_agents.items() if name != env._agent_name}
+            step.append(extra or None)
+            step.append([[op[1], op[2] if len(op) > 2 else "fault"]])
+            return [step]
         if push and op[0] == "step" and self.ops_rng.random() < push:
             burst = self.gen_push()
             if burst:
